@@ -278,6 +278,13 @@ func pullSingleRepo(
 	if err != nil {
 		return utils.HandleHTTPError(cmd, cs, rem.URL, err)
 	}
+	if newBranch {
+		// the fetch itself may have created the branch (a refspec writing into refs/heads/):
+		// it must then be merged into like any existing branch, not overwritten
+		if _, err := ref.GetRef(rs, name); err == nil {
+			newBranch = false
+		}
+	}
 	if setUpstream && len(args) > 2 {
 		ref, err := conf.NewRefspec(name, strings.TrimPrefix(specs[0].Src(), "refs/"), false, false)
 		if err != nil {
